@@ -196,6 +196,14 @@ class Sym(object):
         i = If(i < 0, i + a.n, i) if not isinstance(i, int) else (i if i >= 0 else i + a.n)
         return mkbool(And(i >= 0, i < a.n, in_ranges(a.at(i), r)))
 
+    def has_digit_run(self, s, k):
+        """the string contains k consecutive ASCII digits"""
+        if isinstance(s, str):
+            return any(all("0" <= ch <= "9" for ch in s[i:i + k]) for i in range(len(s) - k + 1))
+        a = sstr.as_atom(s)
+        isd = [And(c >= 48, c <= 57) if not isinstance(c, int) else (48 <= c <= 57) for c in a.c]
+        return mkbool(Or(*[And(i + k <= a.n, *isd[i:i + k]) for i in range(a.m - k + 1)]))
+
     def same(self, a, b):
         return self.I.eq(a, b)
 
